@@ -1,1 +1,3 @@
 pub mod queue;
+pub mod c06;
+pub mod c10;
